@@ -194,8 +194,10 @@ pub fn run_config(id: &str, c: &Value) -> Value {
         IpHeaders::Ipv6(h, _) => h.next_header.0 as i64,
         _ => -1,
     };
+    let iph2_links = match &iph2 { IpHeaders::Ipv6(_, x) => links(x), _ => links(&Ipv6Extensions::default()) };
     let mut nh6 = NetHeaders::Ipv6(hdr.clone(), e.clone());
     let net_et6 = nh6.try_set_next_headers(IpNumber(17)).map(|x| x.0 as i64).unwrap_or(-1);
+    let (nh6_first, nh6_links) = match &nh6 { NetHeaders::Ipv6(h, x) => (h.next_header.0 as i64, links(x)), _ => (-1, links(&Ipv6Extensions::default())) };
     // IPv4 analogue: only the authentication header slot
     let g = |k: &str| c[k].as_i64().unwrap();
     let v4e = Ipv4Extensions { auth: if g("auth") >= 0 { Some(IpAuthHeader::new(IpNumber(g("auth") as u8), 7, 9, &[5, 5, 5, 5]).unwrap()) } else { None } };
@@ -240,6 +242,6 @@ pub fn run_config(id: &str, c: &Value) -> Value {
     json!({"ev": "walk", "id": id, "cfg": {"hbh": g("hbh"), "dst": g("dst"), "route": g("route"), "frag": g("frag"), "auth": g("auth"), "fdst": g("fdst")},
            "first": first, "next_header": nh, "write": wr, "header_len": hl, "decode": dec, "set": set,
            "iph_next": iph_next, "iph_write": iph_write, "iph_len": iph.header_len(),
-           "iph_set": {"et": et6.0, "first": iph2_first, "net_et": net_et6},
+           "iph_set": {"et": et6.0, "first": iph2_first, "net_et": net_et6, "links": iph2_links, "net_first": nh6_first, "net_links": nh6_links},
            "v4": {"next": v4_next, "write": v4_write, "iph_next": iph4_next, "iph_write": iph4_write, "iph_len": iph4c.header_len(), "len": v4e.header_len(), "set_et": et4.0, "set_first": v4_first, "net_et": net_et4}})
 }
